@@ -18,6 +18,7 @@ from ..cfg import atomic_facts
 from ..loader import AnalysisError, unparse, call_name
 from ..dataflow import forward, target_names, single_assign_subst
 from .C10 import parser_line_loop, check_default_t
+from ..inline import flatten
 
 TECHNIQUE = ("static analysis: flow-sensitive taint analysis (raw line vs comment-stripped text) with branch refinement over the CFG of the flattened parser loop; bounded path enumeration of the classification loop; reader/writer table agreement (replace chains); branch-outcome facts for '='-splits elsewhere; lint of emitted comment lines")
 EXPLANATION = (
@@ -277,6 +278,13 @@ def run(prog, check):
         paths += [[taint.hdr.id] + p for p in g.paths(b, taint.hdr, cap=20000)] if b != taint.hdr.id else []
     npaths = 0
     bad_multi, bad_silent = [], []
+    # message lists: local lists that are joined into the text the parser returns
+    warning_lists = set()
+    for r_ in ast.walk(f.node):
+        if isinstance(r_, ast.Return) and r_.value is not None:
+            for c_ in ast.walk(r_.value):
+                if isinstance(c_, ast.Call) and call_name(c_) == 'join' and c_.args and isinstance(c_.args[0], ast.Name):
+                    warning_lists.add(c_.args[0].id)
     for p in paths:
         npaths += 1
         stores, warned, marker, blank = [], False, False, False
@@ -293,6 +301,14 @@ def run(prog, check):
                 labs = [l for b2, l in g.succ[nid] if b2 == p[i + 1]]
                 if True in labs:
                     blank = True
+            if nd.kind == 'test' and i + 1 < len(p) and _is_nonempty_test(nd.ast, taint, nd):
+                labs = [l for b2, l in g.succ[nid] if b2 == p[i + 1]]
+                if False in labs:
+                    blank = True        # the false outcome of `if statement:` is the blank line
+            if nd.kind == 'stmt' and isinstance(nd.ast, ast.Expr) and isinstance(nd.ast.value, ast.Call) and \
+                    call_name(nd.ast.value) in ('append', 'extend') and isinstance(nd.ast.value.func.value, ast.Name) and \
+                    nd.ast.value.func.value.id in warning_lists:
+                warned = True
         if len(stores) > 1:
             bad_multi.append((p, stores))
         if len(stores) == 0 and not (warned or marker or blank):
@@ -371,11 +387,19 @@ def run(prog, check):
     check_default_t(prog, check, 'C14.R4')
     # ---- R6: the emitter decides "exogenous" from the right-hand side only, never from the description ----
     n6 = 0
-    for fn in prog.all_functions():
-        if fn.cls is None or fn.cls.name != 'Model':
-            continue
+    from ..inline import judged_at_callers as _jac
+    model_funcs = [fn_ for fn_ in prog.all_functions() if (fn_.cls is not None and fn_.cls.name == 'Model') or
+                   (fn_.cls is None and fn_.module.rel.endswith('models.py'))]
+    at_callers_ = _jac(prog, model_funcs)
+    seen_sites = set()
+    for fn_raw in model_funcs:
+        if fn_raw.key in at_callers_ or fn_raw.cls is None:
+            continue        # a private helper is read where it is inlined (its parameter is then the caller's expression)
+        fn = flatten(prog, fn_raw)
         sub = single_assign_subst(fn.node)
         for n in ast.walk(fn.node):
+            if (getattr(n, 'lineno', None), getattr(n, 'col_offset', None), type(n).__name__) in seen_sites:
+                continue
             subject = None
             if isinstance(n, ast.Compare) and isinstance(n.ops[0], (ast.In, ast.NotIn)) and isinstance(n.left, ast.Constant) and n.left.value == 'EXOGENOUS':
                 subject = n.comparators[0]
@@ -383,6 +407,7 @@ def run(prog, check):
                 subject = n.func.value
             if subject is None:
                 continue
+            seen_sites.add((n.lineno, n.col_offset, type(n).__name__))
             e = subject
             if isinstance(e, ast.Name) and e.id in sub:
                 e = sub[e.id]
@@ -467,8 +492,8 @@ def run(prog, check):
     # ---- R1 (cont.): every other place that splits an equation string at '=' does so on comment-free text ----------
     from ..cfg import atomic_facts as _facts
     for fn in prog.all_functions():
-        if fn.key == f.key or '/deprecated/' in fn.module.rel:
-            continue
+        if fn.key == f.key or '/deprecated/' in fn.module.rel or fn.key in set(getattr(f, 'inlined', ())):
+            continue        # (a private helper inlined into the parser's line loop has been judged there)
         sites = []
         for c in ast.walk(fn.node):
             if isinstance(c, ast.Call) and call_name(c) in ('split', 'partition', 'rpartition', 'rsplit', 'find', 'index') and c.args and \
@@ -563,7 +588,7 @@ def run(prog, check):
     check.floor('C14.R2', 8)
     check.floor('C14.R3', 5)
     check.floor('C14.R4', 2)
-    check.floor('C14.R6', 4)
+    check.floor('C14.R6', 2)
     check.floor('C14.R5', 3)
 
 
